@@ -76,6 +76,7 @@ func (c12) Plan(tier string) []fw.Unit {
 		{Check: "C12", Kind: "where", Tier: tier, Spec: fw.Spec(enumSpec{})},
 		{Check: "C12", Kind: "seams", Tier: tier, Spec: fw.Spec(enumSpec{})},
 		{Check: "C12", Kind: "trigger-literal", Tier: tier, Spec: fw.Spec(enumSpec{})},
+		{Check: "C12", Kind: "two-column-trigger", Tier: tier, Spec: fw.Spec(enumSpec{})},
 	}
 }
 
@@ -124,6 +125,9 @@ func c12TypeClass(v c12Val) string {
 }
 
 func (c12) Run(u fw.Unit) fw.Result {
+	if u.Kind == "two-column-trigger" {
+		return twoColumnTriggerUnit("C12", "condition-two-column-trigger")
+	}
 	if u.Kind == "trigger-literal" {
 		// the shortcut shape and its parenthesised form share the pass that rewrites the predicate text: a reference
 		// decides here, not the other form
